@@ -31,6 +31,8 @@ pub const O_BOUNDS: u32 = 1 << 9;
 /// to wait for: an operation that exceeds the budget never returns)
 pub const O_TERM: u32 = 1 << 10;
 pub const TERM_BUDGET: i64 = 4000;
+/// atomic accesses one operation may make under the bounds monitor (255 retries of a walk over a short list fit)
+pub const BOUNDS_BUDGET: usize = 60_000;
 /// C15: after every step the cursor lies in [data_offset, capacity], the slices have the documented lengths and
 /// the readers around the cursor and the capacity decode the bytes below allocated() and refuse everything else
 pub const O_READERS: u32 = 1 << 11;
@@ -74,7 +76,15 @@ static BOUNDS_HOOK: BoundsHook = BoundsHook;
 
 impl rarena_allocator::verif::Hook for BoundsHook {
   fn before(&self, ev: &rarena_allocator::verif::Event) {
-    ACCESSES.with(|a| a.borrow_mut().push((ev.addr, ev.size as usize, false)));
+    let n = ACCESSES.with(|a| {
+      let mut a = a.borrow_mut();
+      a.push((ev.addr, ev.size as usize, false));
+      a.len()
+    });
+    // one thread has nobody to wait for: an operation that keeps making atomic accesses does not return
+    if n > BOUNDS_BUDGET && !std::thread::panicking() {
+      std::panic::panic_any(TermBudget);
+    }
   }
   fn after(&self, _: &rarena_allocator::verif::Event, _: u64, _: u64, _: bool) {}
   fn spin(&self, _: bool) {}
@@ -392,6 +402,8 @@ pub struct Runner<A: Subject> {
   pub slots: Vec<Live>,
   pub pinned: Vec<Live>,
   arena: Option<Box<A>>,
+  /// `Cfg::via_clone`: every call of the history goes through this clone of the arena value (`a` points at it)
+  via: Option<Box<A>>,
   pub a: &'static A,
   pub cfg: Cfg,
   pub dead: Vec<(usize, usize)>,
@@ -420,6 +432,7 @@ impl<A: Subject> Drop for Runner<A> {
     self.slots.clear();
     self.pinned.clear();
     let had_path = self.path.clone();
+    drop(self.via.take());
     drop(self.arena.take());
     if let Some(p) = had_path {
       let _ = std::fs::remove_file(p);
@@ -439,7 +452,11 @@ impl<A: Subject> Runner<A> {
   }
 
   pub fn from_arena(cfg: &Cfg, arena: Box<A>, path: Option<PathBuf>) -> Self {
-    let a: &'static A = unsafe { &*(&*arena as *const A) };
+    let via: Option<Box<A>> = if cfg.via_clone { Some(Box::new((*arena).clone())) } else { None };
+    let a: &'static A = match &via {
+      Some(c) => unsafe { &*(&**c as *const A) },
+      None => unsafe { &*(&*arena as *const A) },
+    };
     let mut reserved_pat = vec![];
     if cfg.reserved > 0 && !a.read_only() {
       let s = unsafe { a.reserved_slice_mut() };
@@ -458,6 +475,7 @@ impl<A: Subject> Runner<A> {
       slots: vec![],
       pinned: vec![],
       arena: Some(arena),
+      via,
       a,
       cfg: *cfg,
       dead: vec![],
@@ -485,6 +503,7 @@ impl<A: Subject> Runner<A> {
     self.slots.clear();
     self.pinned.clear();
     let p = self.path.take();
+    drop(self.via.take());
     (self.arena.take().unwrap(), p)
   }
 
@@ -701,7 +720,21 @@ impl<A: Subject> Runner<A> {
       }
     }
     let guard = Uninstall;
-    let r = self.step_inner(op, or, v);
+    let r = match std::panic::catch_unwind(std::panic::AssertUnwindSafe(|| self.step_inner(op, or, v))) {
+      Ok(r) => r,
+      Err(pl) => {
+        drop(guard);
+        if !pl.is::<TermBudget>() {
+          std::panic::resume_unwind(pl);
+        }
+        ACCESSES.with(|a| a.borrow_mut().clear());
+        v.push(Viol { flag: O_BOUNDS, class: "operation-does-not-return".into(), msg: format!("{} made more than {} atomic accesses without returning (a single thread has nobody to wait for): neither a handle nor an error", op.short(), BOUNDS_BUDGET) });
+        self.tainted = true;
+        self.consumed = true;
+        return Some(self.obs(Res::Unit));
+      }
+    };
+    let guard = Uninstall;
     drop(guard);
     let rg = self.a.ranges();
     let inside = |lo: usize, len: usize, base: usize, blen: usize| lo >= base && lo + len <= base + blen;
@@ -1128,6 +1161,17 @@ impl<A: Subject> Runner<A> {
         }
         if or & O_ZERO != 0 && is_bytes && hcap > 0 && inside && self.bytes(off, hcap).iter().any(|b| *b != 0) {
           v.push(Viol { flag: O_ZERO, class: "not-zeroed".into(), msg: format!("{} -> [{},{}) not zero-filled: {:x?}", op.short(), off, off + hcap, self.bytes(off, hcap)) });
+        }
+        if or & O_ZERO != 0 && is_bytes && hcap > 0 && !self.tainted {
+          // a byte buffer that shares bytes with a handle that is still live: what the new owner reads there is
+          // whatever the other owner writes (it never gave those bytes up), at any moment, also between the zeroing
+          // and the return of the call
+          for l in self.all_live() {
+            if overlap(off, hcap, l.m.0, l.m.1) {
+              v.push(Viol { flag: O_ZERO, class: "not-zeroed:shared-with-a-live-handle".into(), msg: format!("{} -> [{},{}) shares bytes with the live handle [{},{}): they read as whatever its owner writes", op.short(), off, off + hcap, l.m.0, l.m.0 + l.m.1) });
+              break;
+            }
+          }
         }
         if or & O_LAYOUT != 0 && !self.first_alloc_done && !zero_req && pre.nodes.is_empty() {
           let dof = self.cfg.data_offset() as u64;
